@@ -28,6 +28,7 @@ type params struct {
 	Pos      int    // position of the bad item in the write history (0 first, 1 middle, 2 last)
 	N        int    // number of writes to all in the stall scenario
 	Flavour  string // stall: how the items reach the stalled channel: all | to | except | frame-to
+	Rows     string // fail, thorough: "one" failure (deeper schedules) | "many" (2..4 in a row); "" = quick: 1 or 3
 }
 
 func (p params) name() string {
@@ -36,6 +37,9 @@ func (p params) name() string {
 	}
 	if p.Scenario == "stallread" {
 		return "stallread/" + p.KindA
+	}
+	if p.Rows != "" {
+		return fmt.Sprintf("fail/%s/%s/pos%d/%s", p.KindA, p.Fault, p.Pos, p.Rows)
 	}
 	return fmt.Sprintf("fail/%s/%s/pos%d", p.KindA, p.Fault, p.Pos)
 }
@@ -56,13 +60,6 @@ type exec struct {
 	thorough bool
 	v2       bool
 	evB      int
-}
-
-func r2(thorough bool) int {
-	if thorough {
-		return 4
-	}
-	return 2
 }
 
 func ping(i int) *common.MessagePing { return &common.MessagePing{Seq: uint32(i), TimeUsec: 1} }
@@ -183,7 +180,14 @@ func (e *exec) Body() {
 	// how many failures in a row (consecutive failing Write calls / unencodable items): 1..4
 	e.nbad = 1
 	if p.Scenario != "stall" {
-		e.nbad = []int{1, 3, 2, 4}[vmc.Choose(r2(e.thorough), "failures-in-a-row")] // quick: 1 or 3 in a row
+		switch p.Rows {
+		case "one":
+			e.nbad = 1
+		case "many":
+			e.nbad = 2 + vmc.Choose(3, "failures-in-a-row")
+		default:
+			e.nbad = []int{1, 3}[vmc.Choose(2, "failures-in-a-row")] // quick: 1 or 3 in a row
+		}
 	}
 	if p.Fault == "write-error" || p.Fault == "write-timeout" {
 		e.failAt = 1 + vmc.Choose(3, "fail-at")
@@ -541,6 +545,16 @@ func variants(thorough bool) []sx.Variant {
 		}
 		if thorough {
 			bound++
+		}
+		if thorough && p.Scenario == "fail" {
+			// one failure at k = 3 (as deep as before), 2..4 failures in a row at k = 2
+			pm := p
+			pm.Rows = "many"
+			out = append(out, sx.Variant{
+				Name: pm.name(), Class: pm.Scenario, MaxSteps: 20000, MaxTime: 10 * time.Minute, Bound: 2, Shards: 4,
+				New: func() sx.Exec { return &exec{p: pm, thorough: thorough} },
+			})
+			p.Rows = "one"
 		}
 		out = append(out, sx.Variant{
 			Name: p.name(), Class: p.Scenario, MaxSteps: 20000, MaxTime: 10 * time.Minute, Bound: bound, Shards: 4,
